@@ -3,6 +3,7 @@ package main
 import (
 	"bytes"
 	"context"
+	"crypto/tls"
 	"errors"
 	"fmt"
 	"io"
@@ -723,6 +724,63 @@ func streamCancel(c *Ctx) {
 					return fmt.Sprintf("handler saw cancellation=%v client=%s", saw, codeName(err)), saw && codeName(err) == "canceled"
 				}})
 			}
+			// K19b (round 11, C15-mp): the same with a read limit on the handler and a request message
+			// of exactly that many bytes, whose terminating chunk arrives a little later (its own TCP
+			// segment, a slow client): the handler still reads the request to its real end - a
+			// reader that stops at "limit" bytes never lets net/http watch the connection.
+			if !h2 && proto != "connect" {
+				for _, kind := range []string{"unary", "server"} {
+					kind := kind
+					scs = append(scs, scenario{"cancel-handler-ctx", "HTTP/1.1 client goes away while the handler runs; read limit 64, request message of exactly 64 bytes, last chunk 150 ms late, " + kind + " " + tag, func() (string, bool) {
+						entered := make(chan struct{}, 1)
+						sawCancel := make(chan bool, 1)
+						wait := func(ctx context.Context) {
+							entered <- struct{}{}
+							select {
+							case <-ctx.Done():
+								sawCancel <- true
+							case <-time.After(3 * time.Second):
+								sawCancel <- false
+							}
+						}
+						var h *connect.Handler
+						if kind == "unary" {
+							h = connect.NewUnaryHandler("/s/m", func(ctx context.Context, r *connect.Request[[]byte]) (*connect.Response[[]byte], error) {
+								wait(ctx)
+								return nil, ctx.Err()
+							}, connect.WithCodec(rawCodec{"raw"}), connect.WithReadMaxBytes(64))
+						} else {
+							h = connect.NewServerStreamHandler("/s/m", func(ctx context.Context, r *connect.Request[[]byte], s *connect.ServerStream[[]byte]) error {
+								wait(ctx)
+								return ctx.Err()
+							}, connect.WithCodec(rawCodec{"raw"}), connect.WithReadMaxBytes(64))
+						}
+						srv := startServer(h, false)
+						defer srv.Close()
+						conn, err := tls.Dial("tcp", srv.Listener.Addr().String(), &tls.Config{InsecureSkipVerify: true})
+						if err != nil {
+							return "dial: " + err.Error(), false
+						}
+						defer conn.Close()
+						msg := frame(0, bytes.Repeat([]byte{7}, 64))
+						head := "POST /s/m HTTP/1.1\r\nHost: h\r\nContent-Type: " + ctFor(proto, kind, "raw") + "\r\nTransfer-Encoding: chunked\r\n\r\n"
+						_, _ = conn.Write([]byte(head + fmt.Sprintf("%x\r\n", len(msg))))
+						_, _ = conn.Write(msg)
+						_, _ = conn.Write([]byte("\r\n"))
+						time.Sleep(150 * time.Millisecond)
+						_, _ = conn.Write([]byte("0\r\n\r\n"))
+						select {
+						case <-entered:
+						case <-time.After(2 * time.Second):
+							return "the handler never ran", false
+						}
+						time.Sleep(50 * time.Millisecond)
+						_ = conn.Close()
+						saw := <-sawCancel
+						return fmt.Sprintf("handler saw cancellation=%v", saw), saw
+					}})
+				}
+			}
 			// K20 (F19): the context ends while Receive is throwing away the payload of a message
 			// that is over the read limit (the peer has announced 256 bytes and sent 100 so far)
 			for _, kind := range []string{"unary", "server"} {
@@ -891,6 +949,69 @@ func streamCancel(c *Ctx) {
 							return "Receive still blocked 2.5 s after the context ended", false
 						}
 					}})
+				}
+			}
+			// K25 (F44; round 11, C15-mo): HTTP/2, a request larger than the peer's flow-control
+			// windows, a server that has answered (headers out) and is not reading the request - it
+			// goes away when its own context ends. The context ends while Send is blocked: the call
+			// returns with the context's code - Send, Receive and the closing of the response.
+			// (Neither the request pipe nor the response body ends by itself here: the transport
+			// waits for window, the server for the client.)
+			if h2 {
+				for _, kind := range []string{"unary", "server"} {
+					for _, ending := range []string{"cancel", "deadline"} {
+						kind, ending := kind, ending
+						scs = append(scs, scenario{"cancel-stalled-flow-control", "8 MiB request to a server that answers without reading it; the context ends (" + ending + ") while Send is blocked, " + kind + " " + tag, func() (string, bool) {
+							release := make(chan struct{})
+							raw := http.HandlerFunc(func(w http.ResponseWriter, r *http.Request) {
+								w.Header().Set("Content-Type", ctFor(proto, kind, "raw"))
+								w.WriteHeader(200)
+								w.(http.Flusher).Flush()
+								select {
+								case <-r.Context().Done():
+								case <-release:
+								}
+							})
+							srv := startServer(raw, true)
+							defer srv.Close()
+							defer srv.CloseClientConnections()
+							defer close(release)
+							cl := connect.NewClient[[]byte, []byte](srv.Client(), srv.URL+"/s/m", protoOpts(proto)...)
+							ctx, cancel := context.WithCancel(context.Background())
+							if ending == "deadline" {
+								ctx, cancel = context.WithTimeout(context.Background(), 300*time.Millisecond)
+							} else {
+								time.AfterFunc(300*time.Millisecond, cancel)
+							}
+							defer cancel()
+							big := make([]byte, 8<<20)
+							done := make(chan error, 1)
+							go func() {
+								if kind == "unary" {
+									_, err := cl.CallUnary(ctx, connect.NewRequest(&big))
+									done <- err
+									return
+								}
+								st, err := cl.CallServerStream(ctx, connect.NewRequest(&big))
+								if err != nil {
+									done <- err
+									return
+								}
+								for st.Receive() {
+								}
+								err = st.Err()
+								_ = st.Close()
+								done <- err
+							}()
+							want := map[string]string{"cancel": "canceled", "deadline": "deadline_exceeded"}[ending]
+							select {
+							case err := <-done:
+								return "call=" + codeName(err), codeName(err) == want
+							case <-time.After(3 * time.Second):
+								return "the call has not returned 2.7 s after the context ended", false
+							}
+						}})
+					}
 				}
 			}
 			// K24 (round 10, C15-mm): the server has finished the call with an error of its own and
@@ -1964,6 +2085,59 @@ func streamLife(c *Ctx) {
 			}
 			return fmt.Sprintf("call=%s response body closed %d time(s)", codeName(err), fb.closedCount()), err != nil && fb.closedCount() >= 1
 		}})
+		// L10b (round 11, C14-mo): the same for a client stream: CloseAndReceive whose CloseRequest
+		// fails must release the response as well.
+		scs = append(scs, scenario{"life-body-not-closed", "CallClientStream, Send, CloseAndReceive whose CloseRequest fails in an interceptor, " + proto, func() (string, bool) {
+			fb := &closeTrackingBody{failingBody: failingBody{data: append(frame(0, []byte{1}), 0, 0), err: errors.New("read tcp: connection reset by peer")}}
+			hc := &bodyClient{status: 200, header: http.Header{"Content-Type": {ctFor(proto, "client", "raw")}}, body: fb}
+			cl := connect.NewClient[[]byte, []byte](hc, "http://h/s/m", append(protoOpts(proto), connect.WithInterceptors(failingCloseIcpt{}))...)
+			st := cl.CallClientStream(context.Background())
+			_ = st.Send(&[]byte{1})
+			_, err := st.CloseAndReceive()
+			deadline := time.Now().Add(2 * time.Second)
+			for fb.closedCount() == 0 && time.Now().Before(deadline) {
+				time.Sleep(20 * time.Millisecond)
+			}
+			return fmt.Sprintf("call=%s response body closed %d time(s)", codeName(err), fb.closedCount()), err != nil && fb.closedCount() >= 1
+		}})
+		// L12 (round 11, C14-mp): what a streaming handler has sent is on its way: a handler that
+		// sends a message and then waits for the client (a watch) must not keep it in a buffer -
+		// the client's Receive returns although the handler has not finished.
+		scs = append(scs, scenario{"life-sent-message-held-back", "server-stream handler sends one message, then waits for the client to go away, " + proto, func() (string, bool) {
+			release := make(chan struct{})
+			h := connect.NewServerStreamHandler("/s/m", func(ctx context.Context, r *connect.Request[[]byte], s *connect.ServerStream[[]byte]) error {
+				if err := s.Send(&[]byte{7}); err != nil {
+					return err
+				}
+				select {
+				case <-ctx.Done():
+				case <-release:
+				case <-time.After(5 * time.Second):
+				}
+				return nil
+			}, connect.WithCodec(rawCodec{"raw"}))
+			srv := startServer(h, true)
+			defer srv.Close()
+			defer close(release)
+			cl := connect.NewClient[[]byte, []byte](srv.Client(), srv.URL+"/s/m", protoOpts(proto)...)
+			ctx, cancel := context.WithCancel(context.Background())
+			defer cancel()
+			st, err := cl.CallServerStream(ctx, connect.NewRequest(&[]byte{1}))
+			if err != nil {
+				return "call: " + codeName(err), false
+			}
+			got := make(chan bool, 1)
+			go func() { got <- st.Receive() }()
+			select {
+			case ok := <-got:
+				cancel()
+				_ = st.Close()
+				return fmt.Sprintf("Receive returned %v", ok), ok
+			case <-time.After(1500 * time.Millisecond):
+				cancel()
+				return "Receive still blocked after 1.5 s although the handler has sent its message", false
+			}
+		}})
 		// L11 (round 10, C14-mm): a handler whose outcome is an error that wraps io.EOF - the
 		// common `if _, err := stream.Receive(); err != nil { return err }` at the end of the
 		// request - has failed; the client's Receive reports that outcome, not a clean end.
@@ -2580,6 +2754,11 @@ func streamLife(c *Ctx) {
 		if r.Chance(20) { // messages after the terminator must never be delivered either
 			items = append(items, bodyItem{kind: "f", data: []byte{5}})
 		}
+		if proto != "connect" && r.Chance(20) {
+			// Grpc-Status among the headers (the trailers-only form) and yet a body: with status 0
+			// Receive reads that body - and a failure in it ends the call like any other (F42)
+			resp.header["Grpc-Status"] = []string{[]string{"0", "0", "0", "9", "abc"}[r.Intn(5)]}
+		}
 		resp.body = items
 		rseqOp(c, fmt.Sprintf("rseq proto=%s max=200 n=%d hdr=%s body=%s trl=%s", proto, len(items)+3, showHdr(resp.header), showBody(resp.body), showHdr(resp.trailer)))
 		// the same response through the typed wrapper: Receive until the end (plus two), with Err()
@@ -2596,6 +2775,9 @@ func streamLife(c *Ctx) {
 		}
 		sresp2 := *resp
 		sresp2.header = hdr{"Content-Type": {ctFor(proto, "server", "raw")}}
+		if v, ok := resp.header["Grpc-Status"]; ok {
+			sresp2.header["Grpc-Status"] = v
+		}
 		sseqOp(c, fmt.Sprintf("sseq proto=%s max=200 ops=%s hdr=%s body=%s trl=%s", proto, ops, showHdr(sresp2.header), showBody(sresp2.body), showHdr(sresp2.trailer)))
 	}
 }
